@@ -939,6 +939,24 @@ def mol_cases(tag, mol, batch, rel, rng, renum=True, dist=None, known=None):
     return nontrivial
 
 
+def documented_moves(src, res):
+    """the hydrogens that differ between the Kekulé form `src` and the thiele() result `res` are moves the documentation of
+    `fix_tautomers` describes: lost by a two-connected N of a six-membered ring, gained by an uncharged N of a five- or
+    seven-membered ring (anything else is not the known tautomer-fix behaviour)"""
+    for n, a in src.atoms():
+        h0, h1 = a.implicit_hydrogens, res._atoms[n].implicit_hydrogens
+        if h0 == h1:
+            continue
+        if a.atomic_number != 7 or h0 is None or h1 is None:
+            return False
+        sizes = a.ring_sizes
+        if h1 < h0 and not (6 in sizes and len(src._bonds[n]) == 2):
+            return False
+        if h1 > h0 and not ((5 in sizes or 7 in sizes) and not a.charge):
+            return False
+    return True
+
+
 def nofix_form(mol):
     c = mol.copy()
     st, _ = outcome(lambda: c.thiele(fix_tautomers=False))
@@ -948,7 +966,12 @@ def nofix_form(mol):
 def same_without_fix(a_kek, b_kek):
     """two Kekulé forms of one molecule (same numbering) aromatise to the same form when the tautomer fix is switched off"""
     x, y = nofix_form(a_kek), nofix_form(b_kek)
-    return x is not None and y is not None and eq_snap(x, y)
+    if x is None or y is None or not eq_snap(x, y):
+        return False
+    p, q = a_kek.copy(), b_kek.copy()
+    p.thiele()
+    q.thiele()
+    return documented_moves(a_kek, p) and documented_moves(b_kek, q)
 
 
 def sssr_differs(k, kr, mp):
@@ -967,6 +990,8 @@ def tautomer_fix_only(k, t):
         return False
     if sum(ka[n][4] for n in moved) != sum(ta[n][4] for n in moved) or set(kb) != set(tb):
         return False
+    if not documented_moves(k, t):
+        return False
     a = k.copy()
     st, ret = outcome(lambda: a.thiele(fix_tautomers=False))
     return st == 'ok' and (bool(ret) or eq_snap(a, k))
@@ -981,7 +1006,12 @@ def tautomer_choice_only(k, kr, mp):
     if s1 != 'ok' or s2 != 'ok':
         return False
     a.remap(mp)
-    return eq_snap(a, b)
+    if not eq_snap(a, b):
+        return False
+    x, y = k.copy(), kr.copy()
+    x.thiele()
+    y.thiele()
+    return documented_moves(k, x) and documented_moves(kr, y)
 
 
 def forms_of(tag, mol, fints, sssr, batch, rel, d, aromatic=None, known=None, ref_kek=None, kints=None):
